@@ -29,7 +29,7 @@ def build_graph(spec):
     """Graph with a chosen node insertion order (decides neighbour iteration / queue order)."""
     import networkx as nx
     n = spec["n"]
-    G = nx.Graph()
+    G = nx.DiGraph() if spec.get("directed") else nx.Graph()     # directed: transmission follows edge direction
     order = spec.get("node_order") or list(range(n))
     G.add_nodes_from(order)
     edges = [tuple(e) for e in spec["edges"]]
@@ -151,7 +151,7 @@ def run_nonmarkov(spec, props=("C11",)):
     D = [num(x) for x in spec["menu"]]
     form = spec.get("form", "sep")
     full = bool(spec.get("full", True))
-    cls = classify(spec) + (("+ret:" + spec["rettype"]) if spec.get("rettype") else "")
+    cls = classify(spec) + (("+ret:" + spec["rettype"]) if spec.get("rettype") else "") + ("+directed" if spec.get("directed") else "")
 
     def call(orc, full_):
         tab = orc.ctx.setdefault("tab", {"delay": {}, "dur": {}, "sus": {}})
@@ -578,6 +578,14 @@ def specs_nonmarkov(tier):
                             m = menu if len(es) <= 3 else [0, 1, "inf"]
                             out.append(dict(fn="fast_nonMarkov_SIR", n=n, edges=es, I0=list(I0), R0=list(R0),
                                             tmin=tmin, tmax=tmax, menu=m, form=form, full=full))
+        if n == 3 and len(es) == 2:
+            # directed contact networks (transmission only along edge direction)
+            for des in ([(0, 1), (1, 2)], [(1, 0), (1, 2)], [(0, 1), (2, 1)], [(0, 1), (1, 0), (1, 2), (2, 0)], [(0, 1), (1, 2), (2, 0)]):
+                for I0 in ([0], [1], [2]):
+                    for form in ("sep", "joint"):
+                        for full in (True, False):
+                            out.append(dict(fn="fast_nonMarkov_SIR", n=3, edges=des, directed=True, I0=list(I0), R0=[], tmin=0, tmax="inf",
+                                            menu=[0, 1, "inf"] if len(des) > 2 else [0, 1, 2, "inf"], form=form, full=full))
         if n <= 3 and es:
             # the user's functions answer with numpy scalars / Python ints instead of floats
             for I0 in ([0], [1]):
